@@ -745,9 +745,9 @@ theorem valid_id (id : Str) (h : is_youtube_video_id id = true) (hl : id.length 
   rw [this] at h
   exact fun c hc => List.all_eq_true.mp h.1.2 c hc
 
-theorem routePath_shorts (id query : Str) (pl : Option Str) (hv : is_youtube_video_id id = true)
+theorem routePath_shorts (fix : Bool) (id query : Str) (pl : Option Str) (hv : is_youtube_video_id id = true)
     (hl : id.length = 11) :
-    routePath true ("/shorts/".toList ++ id) query pl = .ok (some (.short id)) := by
+    routePath fix ("/shorts/".toList ++ id) query pl = .ok (some (.short id)) := by
   obtain ⟨hne, hns, hb⟩ := idChars_facts id (valid_id id hv hl) hl
   unfold routePath
   have h0 : ¬ rstripChars ("/shorts/".toList ++ id) ['/'] = "/watch".toList := by
@@ -765,8 +765,7 @@ theorem routePath_shorts (id query : Str) (pl : Option Str) (hv : is_youtube_vid
   unfold routeShorts
   have : "/shorts/".toList ++ id = '/' :: ("shorts".toList ++ '/' :: id) := by simp
   rw [this, second_two _ id (by decide) hne hns hb]
-  have ht : truncate true id = id := by
-    simp only [truncate, if_true]; exact List.take_of_length_le (by omega)
+  have ht : truncate fix id = id := truncate_eq_self fix id hl
   simp [ht, hv]
 
 theorem routePath_name (ob : Obligations) (fix : Bool) (name query : Str) (pl : Option Str) (hne : name ≠ [])
@@ -816,15 +815,14 @@ theorem routePath_name (ob : Obligations) (fix : Bool) (name query : Str) (pl : 
   simp only [hcount, if_true, hl1, hl2, cutAmp_eq_self name hamp, hbl']
   simp [hne]
 
-theorem routePath_watch (id rest : Str) (pl : Option Str) (hv : is_youtube_video_id id = true)
+theorem routePath_watch (fix : Bool) (id rest : Str) (pl : Option Str) (hv : is_youtube_video_id id = true)
     (hl : id.length = 11) (hrest : rest = [] ∨ ∃ r, rest = '&' :: r) :
-    routePath true "/watch".toList ("v=".toList ++ id ++ rest) pl = .ok (some (.video id pl)) := by
+    routePath fix "/watch".toList ("v=".toList ++ id ++ rest) pl = .ok (some (.video id pl)) := by
   have hid := valid_id id hv hl
   unfold routePath
   have h0 : rstripChars "/watch".toList ['/'] = "/watch".toList := by decide
   rw [if_pos h0, queryV_video id rest hid (by intro e; rw [e] at hl; simp at hl) hrest]
-  have ht : truncate true id = id := by
-    simp only [truncate, if_true]; exact List.take_of_length_le (by omega)
+  have ht : truncate fix id = id := truncate_eq_self fix id hl
   simp [videoOf, ht, hv]
 
 /-! ## assembly: parsing the canonical url of a record -/
@@ -871,10 +869,10 @@ theorem filter_unsafe_id (id : Str) (hid : ∀ c ∈ id, isIdChar c = true) :
   List.filter_eq_self.mpr (fun c hc => by simp [(isIdChar_ne c (hid c hc)).2.2.2.2.2.2])
 
 /-- the canonical url of a video -/
-theorem parse_video_url (puny : Str → Str) (t : T) (hT : KnowsWww puny t) (ob : Obligations)
+theorem parse_video_url (puny : Str → Str) (t : T) (hT : KnowsWww puny t) (ob : Obligations) (fix : Bool)
     (id : Str) (hv : is_youtube_video_id id = true) (hl : id.length = 11) (pl : Option Str)
     (hg : Good (.video id pl)) :
-    parse_youtube_url puny t (recordUrl (.video id pl)) true = .ok (some (.video id pl)) := by
+    parse_youtube_url puny t (recordUrl (.video id pl)) fix = .ok (some (.video id pl)) := by
   have hid := valid_id id hv hl
   -- the tail after the id, and the playlist the regex finds again
   obtain ⟨tail, htail, hurl, hql, hinf⟩ : ∃ tail : Str,
@@ -956,48 +954,48 @@ theorem parse_video_url (puny : Str → Str) (t : T) (hT : KnowsWww puny t) (ob 
     (by rw [hfilter]; simp)
   have heq : videoPrefix ++ (id ++ tail) =
       "https://".toList ++ "www.youtube.com".toList ++ "/watch".toList ++ '?' :: ("v=".toList ++ id ++ tail) := rfl
-  rw [parse_of_canonical puny t _ true _ hinfer hsafe (nextV_none _ hpct) (heq ▸ hsplit)
+  rw [parse_of_canonical puny t _ fix _ hinfer hsafe (nextV_none _ hpct) (heq ▸ hsplit)
     (isYoutubeParsed_www puny t hT _ _), parseSplit_www, hql, hfilter]
-  exact routePath_watch id _ pl hv hl hrest
+  exact routePath_watch fix id _ pl hv hl hrest
 
 /-- **the round trip**, for every record of the region `Good` that satisfies the module's own
-validators -/
+validators (parsed or not), and either value of `fix_common_mistakes` in the re-parse -/
 theorem reparse_of_good (puny : Str → Str) (t : T) (hT : KnowsWww puny t) (ob : Obligations)
-    (r : Record) (hv : Valid true r) (hg : Good r) :
-    parse_youtube_url puny t (recordUrl r) true = .ok (some r) := by
+    (r : Record) (hv : Valid r) (hg : Good r) (fix : Bool) :
+    parse_youtube_url puny t (recordUrl r) fix = .ok (some r) := by
   match r, hv, hg with
-  | .video id pl, hv, hg => exact parse_video_url puny t hT ob id hv.1 (hv.2 rfl) pl hg
+  | .video id pl, hv, hg => exact parse_video_url puny t hT ob fix id hv.1 hv.2 pl hg
   | .short id, hv, _ =>
-    have hid := valid_id id hv.1 (hv.2 rfl)
+    have hid := valid_id id hv.1 hv.2
     have hplain : Plain id := fun c hc =>
       let h := isIdChar_ne c (hid c hc)
       ⟨h.2.2.2.2.1, h.2.2.2.1, h.2.2.1, h.2.1, h.2.2.2.2.2.2⟩
     have hnc : NoCont id := noCont_of_no_pct id (fun h => (isIdChar_ne _ (hid _ h)).2.2.2.2.2.1 rfl)
-    have := parse_path_url puny t hT ob "/shorts/".toList id true (by decide) (by decide) (by decide) (by decide) (by decide)
+    have := parse_path_url puny t hT ob "/shorts/".toList id fix (by decide) (by decide) (by decide) (by decide) (by decide)
       ⟨_, rfl⟩ (by decide) hplain hnc
     have hu : recordUrl (.short id) = "https://www.youtube.com".toList ++ "/shorts/".toList ++ id := rfl
     rw [hu, this]
-    exact routePath_shorts id [] _ hv.1 (hv.2 rfl)
+    exact routePath_shorts fix id [] _ hv.1 hv.2
   | .user name, hv, hg =>
-    have := parse_path_url puny t hT ob "/user/".toList name true (by decide) (by decide) (by decide) (by decide) (by decide)
+    have := parse_path_url puny t hT ob "/user/".toList name fix (by decide) (by decide) (by decide) (by decide) (by decide)
       ⟨_, rfl⟩ (by decide) hg.1 hg.2.2
     have hu : recordUrl (.user name) = "https://www.youtube.com".toList ++ "/user/".toList ++ name := rfl
     rw [hu, this]
-    exact routePath_user true name [] _ hv (fun h => (hg.1 _ h).1 rfl) (fun h => (hg.1 _ h).2.2.2.1 rfl) hg.2.1
+    exact routePath_user fix name [] _ hv (fun h => (hg.1 _ h).1 rfl) (fun h => (hg.1 _ h).2.2.2.1 rfl) hg.2.1
   | .channel (some cid) none, hv, hg =>
-    have := parse_path_url puny t hT ob "/channel/".toList cid true (by decide) (by decide) (by decide) (by decide) (by decide)
+    have := parse_path_url puny t hT ob "/channel/".toList cid fix (by decide) (by decide) (by decide) (by decide) (by decide)
       ⟨_, rfl⟩ (by decide) hg.1 hg.2.2
     have hu : recordUrl (.channel (some cid) none) =
         "https://www.youtube.com".toList ++ "/channel/".toList ++ cid := rfl
     rw [hu, this]
-    exact routePath_channel true cid [] _ hv (fun h => (hg.1 _ h).1 rfl) (fun h => (hg.1 _ h).2.2.2.1 rfl) hg.2.1
+    exact routePath_channel fix cid [] _ hv (fun h => (hg.1 _ h).1 rfl) (fun h => (hg.1 _ h).2.2.2.1 rfl) hg.2.1
   | .channel none (some name), hv, hg =>
-    have := parse_path_url puny t hT ob "/".toList name true (by decide) (by decide) (by decide) (by decide) (by decide)
+    have := parse_path_url puny t hT ob "/".toList name fix (by decide) (by decide) (by decide) (by decide) (by decide)
       ⟨_, rfl⟩ (by decide) hg.1 hg.2
     have hu : recordUrl (.channel none (some name)) =
         "https://www.youtube.com".toList ++ "/".toList ++ name := rfl
     rw [hu, this]
-    exact routePath_name ob true name [] _ hv.1 (fun h => (hg.1 _ h).1 rfl) (fun h => (hg.1 _ h).2.2.2.1 rfl)
+    exact routePath_name ob fix name [] _ hv.1 (fun h => (hg.1 _ h).1 rfl) (fun h => (hg.1 _ h).2.2.2.1 rfl)
       hv.2.1 hv.2.2
 
 end Ural.Youtube
